@@ -69,6 +69,10 @@ pub enum Expr {
     Exists(bool, Vec<Step>),
     /// arithmetic forms the parser admits; evaluation must not panic (Err accepted)
     Arith(String),
+    /// binary arithmetic `l op r` with op in + - * / %
+    ArithBin(char, Operand, Operand),
+    /// unary arithmetic `+x` / `-x`
+    ArithUn(char, Operand),
 }
 
 #[derive(Clone, Debug, PartialEq)]
@@ -163,7 +167,23 @@ pub mod fromlib {
                 }
                 Expr::Exists(root, steps)
             }
-            jp::Expr::ArithmeticFunc(a) => Expr::Arith(format!("{:?}", a)),
+            jp::Expr::ArithmeticFunc(jp::ArithmeticFunc::Binary { op, left, right }) => {
+                let c = match op {
+                    jp::BinaryArithmeticOperator::Add => '+',
+                    jp::BinaryArithmeticOperator::Subtract => '-',
+                    jp::BinaryArithmeticOperator::Multiply => '*',
+                    jp::BinaryArithmeticOperator::Divide => '/',
+                    jp::BinaryArithmeticOperator::Modulus => '%',
+                };
+                Expr::ArithBin(c, operand(left)?, operand(right)?)
+            }
+            jp::Expr::ArithmeticFunc(jp::ArithmeticFunc::Unary { op, operand: o }) => {
+                let c = match op {
+                    jp::UnaryArithmeticOperator::Add => '+',
+                    jp::UnaryArithmeticOperator::Subtract => '-',
+                };
+                Expr::ArithUn(c, operand(o)?)
+            }
             other => return Err(format!("unexpected expr {:?}", other)),
         })
     }
@@ -210,6 +230,8 @@ pub fn same_structure(a: &JPath, b: &JPath) -> bool {
             (Expr::And(l, r), Expr::And(m, s)) | (Expr::Or(l, r), Expr::Or(m, s)) => ex(l, m) && ex(r, s),
             (Expr::Exists(r, x), Expr::Exists(s, y)) => r == s && sts(x, y),
             (Expr::Arith(x), Expr::Arith(y)) => x == y,
+            (Expr::ArithBin(c, l, r), Expr::ArithBin(d, m, s)) => c == d && op(l, m) && op(r, s),
+            (Expr::ArithUn(c, l), Expr::ArithUn(d, m)) => c == d && op(l, m),
             _ => false,
         }
     }
@@ -473,6 +495,23 @@ fn r_expr(e: &Expr, out: &mut String, st: &RStyle, rng: &mut Rng, prec: u8) {
             out.push(')');
         }
         Expr::Arith(s) => out.push_str(s),
+        Expr::ArithBin(c, l, r) => {
+            r_operand(l, out, st, rng);
+            // operator characters end an unquoted name, so the spaces are optional
+            if !(st.spacing && rng.bool()) {
+                out.push(' ');
+            }
+            out.push(*c);
+            if !(st.spacing && rng.bool()) {
+                out.push(' ');
+            }
+            r_operand(r, out, st, rng);
+        }
+        Expr::ArithUn(c, o) => {
+            out.push(*c);
+            sp(out, st, rng);
+            r_operand(o, out, st, rng);
+        }
     }
 }
 
@@ -666,7 +705,7 @@ pub fn eval_expr(e: &Expr, item: &Tree, root: &Tree) -> Tri {
                 Err(_) => None,
             }
         }
-        Expr::Arith(_) => None,
+        Expr::Arith(_) | Expr::ArithBin(..) | Expr::ArithUn(..) => None,
     }
 }
 
@@ -692,7 +731,7 @@ pub fn eval(p: &JPath, root: &Tree) -> Outcome {
 pub fn has_arith(p: &JPath) -> bool {
     fn ex(e: &Expr) -> bool {
         match e {
-            Expr::Arith(_) => true,
+            Expr::Arith(_) | Expr::ArithBin(..) | Expr::ArithUn(..) => true,
             Expr::And(l, r) | Expr::Or(l, r) => ex(l) || ex(r),
             Expr::Exists(_, s) => sts(s),
             Expr::Cmp(_, l, r) => op(l) || op(r),
